@@ -1,7 +1,11 @@
 //! `pv` - runtime monitors for polytune (see /verif/DESIGN.md).
+mod adv;
 mod alloc;
 mod circ;
+mod codec;
+mod faults;
 mod hooks;
+mod shard;
 mod props;
 mod report;
 mod runner;
@@ -28,6 +32,10 @@ fn main() {
         }
     }
     sim::install_panic_hook();
+    if prop == "DUMP" {
+        props::dump(args.get(2).and_then(|s| s.parse().ok()).unwrap_or(2));
+        return;
+    }
     let _ = std::fs::create_dir_all(runner::scratch_root());
     let code = props::dispatch(&prop, &tier, seed, path.as_deref());
     // remove our scratch directories
